@@ -8,7 +8,7 @@
 (*   ChangeUnit(j):   the loads are expressed in another unit (a real factor,  *)
 (*                    not a power of two): 1 = ksi, 2 / 3 = fractions of the   *)
 (*                    finite/infinite transition load (so that the knee lies   *)
-(*                    just below / just above 1), 4 = an arbitrary 9-digit     *)
+(*                    at 0.95 / at 1.0000001), 4 = an arbitrary 9-digit     *)
 (*                    factor; SD scales with the factor, nothing else changes  *)
 (*   Permute:         nothing changes                                        *)
 (*   Distract:        another data set is analysed in between; nothing       *)
